@@ -18,7 +18,8 @@ from vlib.runner import CaseResult, Check, Part, exc_bucket, main
 @st.composite
 def cases(draw, tier):
     return dict(prog=draw(dsl.track_programs()), seed=draw(st.integers(0, 10**6)), backward=draw(st.sampled_from([True, True, True, False])),
-                warmup=draw(st.sampled_from([None, None, "backward", "forward-only"])), nnroot=draw(st.integers(0, 5)) == 0, dtype=draw(st.sampled_from(["float32", "float32", "float32", "float64"])))
+                warmup=draw(st.sampled_from([None, None, "backward", "forward-only"])), nnroot=draw(st.integers(0, 5)) == 0, dtype=draw(st.sampled_from(["float32", "float32", "float32", "float64"])),
+                upstream=draw(st.sampled_from([False, False, False, True])))
 
 
 def bitequal(a, b):
@@ -28,8 +29,14 @@ def bitequal(a, b):
         torch.equal(a.nan_to_num(0.0) if a.is_floating_point() else a, b.nan_to_num(0.0) if b.is_floating_point() else b)
 
 
-def run_module(m, inputs, backward, set_requires_grad, call=None):
+def run_module(m, inputs, backward, set_requires_grad, call=None, upstream=False):
     ins = {k: (v.clone().requires_grad_() if (v.is_floating_point() and set_requires_grad) else v.clone()) for k, v in inputs.items()}
+    leaves = ins
+    if upstream:
+        # the module is fed by a differentiable upstream computation (tracking a sub-block of a larger model): its float inputs are
+        # non-leaf tensors, and the gradient must still reach what produced them
+        leaves = {k: (v.clone().requires_grad_() if v.is_floating_point() else v.clone()) for k, v in inputs.items()}
+        ins = {k: (v * 1.0 if v.is_floating_point() else v) for k, v in leaves.items()}
     for p in m.parameters():
         p.grad = None
     y = call(m, ins) if call else m(**ins)
@@ -39,7 +46,7 @@ def run_module(m, inputs, backward, set_requires_grad, call=None):
         if isinstance(loss, torch.Tensor):
             loss.backward()
     pg = {n: (None if p.grad is None else p.grad.detach().clone()) for n, p in m.named_parameters()}
-    ig = {k: (None if (not v.is_floating_point() or v.grad is None) else v.grad.detach().clone()) for k, v in ins.items()}
+    ig = {k: (None if (not v.is_floating_point() or v.grad is None) else v.grad.detach().clone()) for k, v in leaves.items()}
     return outs, pg, ig
 
 
@@ -89,7 +96,10 @@ def run(c) -> CaseResult:
     # track_scales (documented) sets requires_grad on the float *tensors* it is called with; behind the nn.Sequential root the
     # arguments travel as one tuple, which it does not look into - there the harness sets the flag itself, as a caller would
     own_rg = bool(c.get("nnroot"))
-    outs0, pg0, ig0 = run_module(m, inputs, c["backward"], True, call)
+    ups = bool(c.get("upstream"))
+    if ups:
+        res.labels.append("non-leaf-inputs")
+    outs0, pg0, ig0 = run_module(m, inputs, c["backward"], True, call, ups)
     # ---- (a) bit-identical outputs and gradients
     try:
         tm = track_scales(m)
@@ -97,7 +107,7 @@ def run(c) -> CaseResult:
             # an earlier call of the same tracked module (other inputs): the metrics must describe the *last* call only
             run_module(tm, dsl.make_inputs(prog, c["seed"] + 1, dtype=dt), c["warmup"] == "backward", own_rg, call)
             res.labels.append("second-call-after-" + c["warmup"])
-        outs1, pg1, ig1 = run_module(tm, inputs, c["backward"], own_rg, call)
+        outs1, pg1, ig1 = run_module(tm, inputs, c["backward"], own_rg or ups, call, ups)
         graph = tm.scales_graph()
     except Exception as e:  # noqa: BLE001
         res.fail(exc_bucket("C18.raises", e).replace("outside-library", "via-dynamo")[:300], f"{type(e).__name__}: {str(e)[:300]}\n{src}")
